@@ -178,7 +178,7 @@ class ExternalVariableCollector(NodeVisitor):
             # A nested function: the def statement binds its name in the
             # enclosing function; its parameters and body are its own scope,
             # only what the definition itself evaluates belongs here
-            self.provenance[node.name] = "body"
+            self.provenance.setdefault(node.name, "body")
             self.assigned.add(node.name)
             for sub in [
                 *node.decorator_list,
@@ -191,7 +191,7 @@ class ExternalVariableCollector(NodeVisitor):
 
     def visit_ClassDef(self, node):
         # The class statement binds its name; its body is a scope of its own
-        self.provenance[node.name] = "body"
+        self.provenance.setdefault(node.name, "body")
         self.assigned.add(node.name)
         for sub in [*node.bases, *node.keywords, *node.decorator_list]:
             self.visit(sub)
@@ -202,12 +202,14 @@ class ExternalVariableCollector(NodeVisitor):
         else:
             if node.lineno in self.comments:
                 self.vardoc[node.id] = self.comments[node.lineno]
-            self.provenance[node.id] = "body"
+            # A parameter or closure variable that is assigned again in the
+            # body keeps its provenance
+            self.provenance.setdefault(node.id, "body")
             self.assigned.add(node.id)
 
     def visit_ExceptHandler(self, node):
         if node.name is not None:
-            self.provenance[node.name] = "body"
+            self.provenance.setdefault(node.name, "body")
             self.assigned.add(node.name)
         self.generic_visit(node)
 
@@ -218,7 +220,7 @@ class ExternalVariableCollector(NodeVisitor):
         for alias in node.names:
             name = alias.asname or alias.name
             name = name.split(".")[0]
-            self.provenance[name] = "body"
+            self.provenance.setdefault(name, "body")
             self.assigned.add(name)
 
     def visit_arg(self, node):
